@@ -267,6 +267,32 @@ def _rand_sample(sclass, rs):
     raise AssertionError(sclass)
 
 
+@st.composite
+def _history_st(draw, tier):
+    """2..6 operations on ONE PSK/QPSK object: phase-offset changes
+    interleaved with uses (same number of samples every time)"""
+    cfg = draw(_cfg_st(tier, classes=("QPSK", "PSK", "PSK")))
+    M = cfg["M"]
+    phis = st.one_of(fl(-2 * math.pi, 2 * math.pi),
+                     st.integers(-120, 120).map(lambda k: k / 10.0),
+                     st.sampled_from(SPECIAL_PHIS).map(
+                         lambda n: _special_phi(n, M)),
+                     st.just(0.0))
+    steps = []
+    for _ in range(draw(st.integers(2, 6))):
+        k = draw(st.sampled_from(["use", "use", "set", "set", "set_back"]))
+        if k == "use":
+            steps.append(["use", draw(seeds)])
+        elif k == "set_back":
+            # back to the offset the object was built with
+            steps.append(["set", None])
+        else:
+            steps.append(["set", draw(phis)])
+    steps.append(["use", draw(seeds)])
+    return dict(part="history", cfg=cfg, steps=steps,
+                n=draw(st.integers(1, 40)))
+
+
 def _constellation_st(tier):
     return st.fixed_dictionaries(dict(
         part=st.just("constellation"),
@@ -312,11 +338,14 @@ def _enum_bigbatch(tier):
     index arrays.  Memory of the library's distance matrix: M*n*16 bytes."""
     cases = []
     sizes = [("QAM", 4096, 1100), ("PSK", 1024, 4200), ("QAM", 256, 17000),
-             ("QAM", 64, 66000)]
+             ("QAM", 64, 66000), ("QAM", 4096, 4203)]
     if tier == "thorough":
         sizes += [("QAM", 4096, 2500), ("PSK", 256, 40000),
                   ("QAM", 16, 270000), ("QPSK", 4, 1100000),
-                  ("PSK", 8, 1100000), ("QAM", 1024, 9000)]
+                  ("PSK", 8, 1100000), ("QAM", 1024, 9000),
+                  # M*n above 2**24 with n not a multiple of a power of two
+                  ("PSK", 8, 2100003),
+                  ("QAM", 64, 300001), ("QAM", 16, 2200007)]
     for i, (cls, M, n) in enumerate(sizes):
         cfg = dict(cls=cls, M=M, phi=0.0 if cls != "QAM" else None,
                    set_phi=None)
@@ -336,6 +365,7 @@ PARTS = [
     Part("constellation", _constellation_st, quick=400, thorough=20000,
          quick_shards=2),
     Part("roundtrip", _roundtrip_st, quick=1600, thorough=60000),
+    Part("history", _history_st, quick=1200, thorough=40000, quick_shards=4),
     Part("badindex", lambda tier: _roundtrip_st(tier, bad=True), quick=400,
          thorough=20000, quick_shards=2),
     Part("detect", _detect_st, quick=4800, thorough=150000, quick_shards=8),
@@ -589,6 +619,49 @@ def _part_roundtrip(case, ctx):
                    (M > 64 or _eff_phi(cfg) != 0.0 or np.ndim(idx) != 1))
 
 
+def _part_history(case, ctx):
+    """after ANY sequence of uses and phase-offset changes on one object the
+    constellation, the round trip and nearest-point detection are those of
+    the current offset"""
+    cfg = dict(case["cfg"])
+    mod = _build(cfg)
+    M, n = cfg["M"], int(case["n"])
+    built_phi = _eff_phi(cfg)
+    n_use = n_set = 0
+    ctx.label("hist:%s" % cfg["cls"],
+              "M<=16" if M <= 16 else ("M<=256" if M <= 256 else "M>256"))
+    for kind, arg in case["steps"]:
+        if kind == "set":
+            phi = built_phi if arg is None else float(arg)
+            mod.setPhaseOffset(phi)
+            cfg["set_phi"] = phi
+            n_set += 1
+            if n_use:
+                ctx.label("hist:set_after_use")
+            continue
+        n_use += 1
+        rs = np.random.RandomState(int(arg))
+        c = _check_constellation(mod, cfg, ctx)
+        idx = rs.randint(0, M, size=n)
+        _check_roundtrip_array(mod, cfg, idx, ctx, "history")
+        # noisy samples well inside the decision regions
+        dmin = 2.0 * math.sin(math.pi / M) if M > 1 else 2.0
+        z = c[idx] + 0.3 * dmin * rs.uniform(0.0, 1.0, n) * \
+            np.exp(2j * math.pi * rs.uniform(0.0, 1.0, n))
+        got = np.asarray(mod.demodulate(z)).reshape(-1)
+        if got.shape != (n,) or not np.array_equal(got, idx):
+            bad = int(np.flatnonzero(got != idx)[0]) if got.shape == (n,) \
+                else -1
+            raise Violation("history_detection", "use %d after %d offset "
+                            "changes: sample %d within 0.3 d_min of point %d "
+                            "detected as %r" %
+                            (n_use, n_set, bad, int(idx[bad]),
+                             got[bad] if bad >= 0 else got.shape),
+                            _tags(cfg, n_set=min(n_set, 3)))
+    ctx.label("hist:uses=%d" % min(n_use, 4), "hist:sets=%d" % min(n_set, 4))
+    ctx.nontrivial(n_use >= 2 and n_set >= 1)
+
+
 def _expect_value_error(fn, name, detail, tags):
     try:
         out = fn()
@@ -751,6 +824,8 @@ def check(case, ctx):
         return _part_reject(case, ctx)
     if part == "detect":
         return _part_detect(case, ctx)
+    if part == "history":
+        return _part_history(case, ctx)
     raise AssertionError("unknown part %r" % part)
 
 
